@@ -161,7 +161,19 @@ func (t *Term) String() string {
 }
 
 // Ctx is a hash-consing context. Not safe for concurrent use.
+type tkey struct {
+	op     Op
+	k      Kind
+	w      int
+	c      uint64
+	name   string
+	p0, p1 int
+	n      int
+	a0, a1, a2 int
+}
+
 type Ctx struct {
+	ktab  map[tkey]*Term
 	tab   map[string]*Term
 	terms []*Term
 	Vars  []*Term
@@ -170,7 +182,7 @@ type Ctx struct {
 }
 
 func NewCtx() *Ctx {
-	c := &Ctx{tab: map[string]*Term{}, varByName: map[string]*Term{}}
+	c := &Ctx{tab: map[string]*Term{}, ktab: map[tkey]*Term{}, varByName: map[string]*Term{}}
 	c.tt = c.mk(&Term{Op: OpConst, Sort: Bool, C: 1})
 	c.ff = c.mk(&Term{Op: OpConst, Sort: Bool, C: 0})
 	return c
@@ -188,6 +200,26 @@ func key(t *Term) string {
 }
 
 func (c *Ctx) mk(t *Term) *Term {
+	if len(t.Args) <= 3 {
+		k := tkey{op: t.Op, k: t.Sort.K, w: t.Sort.W, c: t.C, name: t.Name, p0: t.P0, p1: t.P1, n: len(t.Args), a0: -1, a1: -1, a2: -1}
+		switch len(t.Args) {
+		case 3:
+			k.a2 = t.Args[2].ID
+			fallthrough
+		case 2:
+			k.a1 = t.Args[1].ID
+			fallthrough
+		case 1:
+			k.a0 = t.Args[0].ID
+		}
+		if x, ok := c.ktab[k]; ok {
+			return x
+		}
+		t.ID = len(c.terms)
+		c.terms = append(c.terms, t)
+		c.ktab[k] = t
+		return t
+	}
 	k := key(t)
 	if x, ok := c.tab[k]; ok {
 		return x
